@@ -9,7 +9,7 @@ use miniz_oxide::DataFormat;
 use serde_json::{json, Value};
 use std::collections::BTreeMap;
 
-pub const CONTENTS: [&str; 10] = ["zeros", "R", "S3", "T", "alt", "ff", "H", "Hm", "Rm", "Hs"];
+pub const CONTENTS: [&str; 12] = ["zeros", "R", "S3", "T", "alt", "ff", "H", "Hm", "Rm", "Hs", "ZH", "ZR"];
 
 pub fn content(kind: &str, n: usize) -> Vec<u8> {
     let salt = crate::util::seed();
@@ -25,6 +25,14 @@ pub fn content(kind: &str, n: usize) -> Vec<u8> {
             // every byte value occurs, but ~90% of the bytes are >= 144 (9-bit static codes)
             let mut l = Lcg(0x4873 ^ salt);
             (0..n).map(|i| if i < 256 { i as u8 } else { let x = l.next_u32(); if x % 10 == 0 { (x >> 8) as u8 % 144 } else { 144 + ((x >> 8) % 112) as u8 } }).collect()
+        }
+        "ZH" | "ZR" => {
+            // a short run first (so the very first block already holds matches and is not "fat"),
+            // then incompressible bytes
+            let z = n.min(1000);
+            let mut v = vec![0u8; z];
+            v.extend(build_shape(&[(if kind == "ZH" { Seg::H } else { Seg::R }, n - z)], salt));
+            v
         }
         "Hm" | "Rm" => {
             // incompressible with one 258-byte repeat planted every ~25 K (keeps a block "non-fat")
@@ -84,11 +92,41 @@ pub fn check(kind: &str, n: usize, level: i32, strat: i32) -> Result<(usize, usi
         miniz_oxide_c_api::mz_deflateEnd(&mut zs);
         if o.ret != 1 {
             return Err((
-                format!("bound/{}/strategy={}/via=mz_deflate", route(level), sname),
+                format!("bound/{}/strategy={}/content={}/via=mz_deflate", route(level), sname, kind),
                 format!("mz_deflate(MZ_FINISH) with avail_out = mz_deflateBound({}) = {} returned {} after writing {} bytes ({} content)", n, bound, o.ret, o.written, kind),
             ));
         }
         produced_max = produced_max.max(o.written);
+    }
+    // (a') the same single finishing call on a *recycled* stream: mz_deflateReset after a stream
+    // that was abandoned with a block pending (57 344 small-alphabet bytes fed with MZ_NO_FLUSH,
+    // nothing emitted yet) and after a finished stream. The bound speaks about n only.
+    if n > 300 {
+        for hist in 0..2 {
+            unsafe {
+                let mut zs = capi::new_stream();
+                if miniz_oxide_c_api::mz_deflateInit2(&mut zs, level, 8, 15, 9, strat) != 0 {
+                    return Err(("init-failed".into(), "mz_deflateInit2 failed".into()));
+                }
+                // (16-symbol noise: mostly literals, so the pending block holds ~50 000 symbols)
+                let mut hl = Lcg(0x7e57 ^ crate::util::seed());
+                let prev: Vec<u8> = (0..14 * 4096usize).map(|_| b"0123456789abcdef"[(hl.next_u32() >> 9) as usize % 16]).collect();
+                let _ = capi::stream_call(&mut zs, false, &prev, 0, prev.len(), 100_000, if hist == 0 { 0 } else { 4 }, Place::End);
+                if miniz_oxide_c_api::mz_deflateReset(&mut zs) != 0 {
+                    miniz_oxide_c_api::mz_deflateEnd(&mut zs);
+                    return Err(("reset-failed".into(), "mz_deflateReset failed".into()));
+                }
+                let o = capi::stream_call(&mut zs, false, &data, 0, n, bound, 4, Place::End).map_err(|e| ("accounting".to_string(), e))?;
+                miniz_oxide_c_api::mz_deflateEnd(&mut zs);
+                if o.ret != 1 {
+                    return Err((
+                        format!("bound/{}/strategy={}/content={}/via=mz_deflateReset-after-{}", route(level), sname, kind, if hist == 0 { "abandoned" } else { "finished" }),
+                        format!("recycled stream: mz_deflate(MZ_FINISH) with avail_out = mz_deflateBound({}) = {} returned {} after writing {} bytes ({} content)", n, bound, o.ret, o.written, kind),
+                    ));
+                }
+                produced_max = produced_max.max(o.written);
+            }
+        }
     }
     // (b) CompressorOxide::with_params one-shot
     {
@@ -102,7 +140,7 @@ pub fn check(kind: &str, n: usize, level: i32, strat: i32) -> Result<(usize, usi
         }
         if no > bound {
             return Err((
-                format!("bound/{}/strategy={}/via=with_params", route(level), sname),
+                format!("bound/{}/strategy={}/content={}/via=with_params", route(level), sname, kind),
                 format!("one finishing compression of {} {} bytes produced {} bytes, mz_deflateBound = {}", n, kind, no, bound),
             ));
         }
@@ -133,7 +171,7 @@ pub fn run(tier: &str) -> i32 {
                     if !th {
                         // quick: all levels x strategies on the threshold sizes for the adversarial
                         // contents, a diagonal elsewhere
-                        let adversarial = matches!(CONTENTS[ki], "H" | "Hm" | "R" | "Rm" | "Hs");
+                        let adversarial = matches!(CONTENTS[ki], "H" | "Hm" | "R" | "Rm" | "Hs" | "ZH" | "ZR");
                         if small && (n + ki + (level + 1) as usize + strat as usize) % 5 != 0 {
                             continue;
                         }
@@ -187,7 +225,7 @@ pub fn run(tier: &str) -> i32 {
     rep.set("max_size", json!(sz.last()));
     rep.set("slack_by_content_and_strategy", json!(slack));
     rep.set("exhaustive", json!(true));
-    rep.set("rule", json!("n in 0..=300 (all) + every compressor threshold +-1 + k*31744+-1, k*65536+-1 (k<=4) + 5120+-1, 40000, 58000, 1 MiB (+-1 and 4 MiB in thorough); content in {zeros, R (incompressible), Hs (all byte values, 90% >= 144), S3 (sparse 3-byte matches), T (skewed text), alternating, ff, H (incompressible, all bytes >= 144), Hm/Rm (H/R with a 258-byte repeat every 20-30 K)}; levels -1..=10 x strategies 0..=4; through mz_deflateInit2 + one mz_deflate(MZ_FINISH) with avail_out = mz_deflateBound(n) on guard-paged buffers, CompressorOxide::with_params one-shot, and mz_compress2 with *dest_len = mz_compressBound(n); non-trivial = n > 300; cases distinct by construction"));
+    rep.set("rule", json!("n in 0..=300 (all) + every compressor threshold +-1 + k*31744+-1, k*65536+-1 (k<=4) + 5120+-1, 40000, 58000, 1 MiB (+-1 and 4 MiB in thorough); content in {zeros, R (incompressible), Hs (all byte values, 90% >= 144), S3 (sparse 3-byte matches), T (skewed text), alternating, ff, H (incompressible, all bytes >= 144), Hm/Rm (H/R with a 258-byte repeat every 20-30 K)}; levels -1..=10 x strategies 0..=4; ZH/ZR (1000 zeros, then H/R); through mz_deflateInit2 + one mz_deflate(MZ_FINISH) with avail_out = mz_deflateBound(n) on guard-paged buffers (fresh stream, and for n > 300 a stream recycled with mz_deflateReset after an abandoned and after a finished stream), CompressorOxide::with_params one-shot, and mz_compress2 with *dest_len = mz_compressBound(n); non-trivial = n > 300; cases distinct by construction"));
     rep.sample(json!({"content": "H", "n": 40000, "level": 1, "strategy": 4}));
     rep.sample(json!({"content": "Rm", "n": 65537, "level": 6, "strategy": 0}));
     if evals < 5000 {
